@@ -74,8 +74,8 @@ def gql_type(t: T, ctx: Ctx, inp: bool, nullable: bool = False) -> str:
     if isinstance(t, Con):
         return gql_type(t.base, ctx, inp, nullable)
     if isinstance(t, Uni):
-        alts = [a for a in flat_alts(t) if not (isinstance(a, Prim) and a.kind in ("none", "undefined"))]
-        opt = len(alts) != len(flat_alts(t))
+        alts = [a for a in flat_alts(t, ctx) if not (isinstance(a, Prim) and a.kind in ("none", "undefined"))]
+        opt = len(alts) != len(flat_alts(t, ctx))
         if len(alts) == 1:
             return gql_type(alts[0], ctx, inp, nullable or opt)
         raise Unspecified("union")
